@@ -27,7 +27,8 @@ FIELDS = {
     "mark": [("mm", lambda s: s % 8, 1), ("w2", lambda s: 2, 1), ("w1", lambda s: 7, 1), ("w2", lambda s: 63, 1)],
     "log": [("mg", lambda s: s % 8, 1), ("w2", lambda s: 5, 1), ("w1", lambda s: 0, 1), ("w2", lambda s: 8, 1)],
     "pin": [("mp", lambda s: s % 8, 1), ("w2", lambda s: 7, 1), ("w1", lambda s: 1, 1), ("w2", lambda s: 15, 1)],
-    "los": [("ml", lambda s: 2 * (s % 4), 2), ("w2", lambda s: 8, 2), ("w1", lambda s: 4, 2), ("w2", lambda s: 22, 2)],
+    "los": [("ml", lambda s: 2, 2),          # side LOS spec: 2 bits per 4 KiB page
+            ("w2", lambda s: 8, 2), ("w1", lambda s: 4, 2), ("w2", lambda s: 22, 2)],
 }
 PTR_LOC = ["w0", "w1", "w0", "w1"]
 ONE_STEP = [None, 0, None, 56]
